@@ -416,6 +416,10 @@ func cmdCheck(args []string) int {
 		reproduced := false
 		if r.Status == "sat" && len(model) > 0 {
 			reproduced = tryReplay(id, rp, cfg, r)
+		} else if r.Kind != "binding" && r.Kind != "cover" && r.obl != nil && harnessFor(ShortKey(r.obl.Fn)) != "" {
+			// no solver witness (quantified context: unknown/timeout): the harness of the
+			// function carries directed inputs of its own; run it against the real code
+			reproduced = tryReplay(id, rp, cfg, r)
 		}
 		if !reproduced {
 			tail = " no-failing-input-found"
